@@ -13,5 +13,6 @@ McBlocks == { <<>>,
               TplSeq(<<"attesterr", "status", "statusbad">>),
               << <<"UpsertRelayerFee", "FeeSetting.Fees[0].Multiplicator", "negative">> >>,
               << Tpl("estimate"), <<"AddEvidence", "Proof", "empty">> >> }
+McVersions == {[v |-> <<5, 1, 6>>, pre |-> ""], [v |-> <<5, 1, 10>>, pre |-> ""], [v |-> <<5, 1, 6>>, pre |-> "-rc1"]}
 McConstr == height <= MaxHeight /\ restarts <= 1 /\ nqueries <= 1
 =============================================================================
